@@ -52,6 +52,9 @@ def struct_class(ev: ConstEval, ref: CStructRef) -> ClassInfo:
 
 def struct_fields(ev: ConstEval, c: ClassInfo) -> List[Tuple[str, Any, Optional[int]]]:
     """All fields of a Structure class, base-class fields first."""
+    cache = ev.__dict__.setdefault("_nqsa_struct_fields", {})
+    if c.qualname in cache:
+        return cache[c.qualname]
     out: List[Tuple[str, Any, Optional[int]]] = []
     for k in reversed(ev.repo.mro(c)):
         if "_fields_" not in k.attrs:
@@ -67,6 +70,7 @@ def struct_fields(ev: ConstEval, c: ClassInfo) -> List[Tuple[str, Any, Optional[
             name, t = f[0], f[1]
             bits = f[2] if len(f) == 3 else None
             out.append((name, t, bits))
+    cache[c.qualname] = out
     return out
 
 
